@@ -357,12 +357,12 @@ class Ctx:
             with open(path, 'w') as f:
                 f.write('From Coq Require Import ZArith List String Ascii Bool.\nImport ListNotations.\n')
                 f.write('From MP Require Import Base %s.\n' % imports)
-                f.write('Local Open Scope Z_scope.\nLocal Open Scope string_scope.\n')
+                f.write('Local Open Scope string_scope.\nLocal Open Scope Z_scope.\n')
                 f.write(defs + '\n')
                 f.write('Definition cases : list (%s) := [\n' % case_type)
                 f.write(';\n'.join(cases[k:k + shard]))
                 f.write('\n].\n')
-                f.write('Eval vm_compute in (bad_idx (%s) cases).\n' % checker)
+                f.write('Eval vm_compute in (@bad_idx (%s) (%s) cases).\n' % (case_type, checker))
             files.append((k, path))
         bad = []
         with ThreadPoolExecutor(NCPU) as ex:
@@ -393,7 +393,7 @@ class Ctx:
         with open(path, 'w') as f:
             f.write('From Coq Require Import ZArith List String Ascii Bool.\nImport ListNotations.\n')
             f.write('From MP Require Import Base %s.\n' % imports)
-            f.write('Local Open Scope Z_scope.\nLocal Open Scope string_scope.\nSet Printing Width 1000000.\nSet Printing Depth 1000000.\n')
+            f.write('Local Open Scope string_scope.\nLocal Open Scope Z_scope.\nSet Printing Width 1000000.\nSet Printing Depth 1000000.\n')
             f.write(defs + '\n')
             for t in terms:
                 f.write('Eval vm_compute in (%s).\n' % t)
